@@ -196,18 +196,18 @@ CATALOGUE = [
     F("wpa-psk-ascii", "wpa-psk ascii 0 {s0}", mode="scrub"),
     F("wpa-psk-ascii-7", "wpa-psk ascii 7 {s0}", mode="scrub"),
     F("ldap-login-password", "ldap-login-password {s0}", mode="scrub"),
-    F("vpdn-username-password", "vpdn username {u} password {s0}", mode="scrub"),
+    F("vpdn-username-password", "vpdn username {u} password {s0}"),
     F("key-string", "key-string {s0}", mode="scrub"),
     F("key-string-7", "key-string 7 {s0}", mode="scrub"),
     F("md-key-md5-7", "message-digest-key {n} md5 7 {s0}", mode="scrub"),
     F("md-key-md5-encrypted", "message-digest-key {n} md5 encrypted {s0}", mode="scrub"),
-    F("bgp-neighbor-password", "neighbor {ip} password {s0}", mode="scrub"),
-    F("bgp-neighbor-password-7", "neighbor {ip} password 7 {s0}", mode="scrub"),
-    F("bgp-neighbor-group-password", "neighbor {u} password {s0}", mode="scrub"),
-    F("wlccp-username-password", "wlccp ap username {u} password 7 {s0}", mode="scrub"),
-    F("wlccp-authentication-server", "wlccp wds username {u} mode {u} password 0 {s0}", mode="scrub"),
-    F("junos-md5-key", "authentication md5 {n} key \"{s0}\"", mode="scrub", quote=False),
-    F("junos-md5-key-set", "set protocols ospf area 0.0.0.0 interface ge-0/0/0.0 authentication md5 {n} key \"{s0}\"", mode="scrub", quote=False),
+    F("bgp-neighbor-password", "neighbor {ip} password {s0}"),
+    F("bgp-neighbor-password-7", "neighbor {ip} password 7 {s0}"),
+    F("bgp-neighbor-group-password", "neighbor {u} password {s0}"),
+    F("wlccp-username-password", "wlccp ap username {u} password 7 {s0}"),
+    F("wlccp-authentication-server", "wlccp wds username {u} mode {u} password 0 {s0}"),
+    F("junos-md5-key", "authentication md5 {n} key \"{s0}\"", quote=False),
+    F("junos-md5-key-set", "set protocols ospf area 0.0.0.0 interface ge-0/0/0.0 authentication md5 {n} key \"{s0}\"", quote=False),
     F("junos-secret", "set system radius-server {ip} secret \"{s0}\"", quote=False),
     F("junos-tacplus-secret", "set system tacplus-server {ip} secret \"{s0}\"", quote=False),
     F("junos-secret-stanza", "secret \"{s0}\"", quote=False),
@@ -248,7 +248,7 @@ CATALOGUE = [
     F("catchall-quoted", "{u} \"{s0}\";", ["md5", "j9"], quote=False),
     F("catchall-line-start", "{s0}", ["md5", "j9"], quote=False),
     # --- forms named in the property's rationale / found leaking during reconnaissance
-    F("failover-key-hex", "failover key hex {s0}", ["hex"], mode="scrub"),
+    F("failover-key-hex", "failover key hex {s0}", ["hex"]),
     F("key-ascii-text", "key ascii-text \"{s0}\"", quote=False),
 ]
 
